@@ -177,6 +177,11 @@ def bounded(tier, seed):
         evals += 1
         if not torch.allclose(a, b, rtol=1e-9, atol=1e-12) and len(viol) < 5:
             viol.append(dict(ob="bounded/diagonal-fast-path=general", func="matrix_inverse_root", input=dict(diag=d.tolist()), text="diagonal fast path differs from the general path", detail="", replay=None))
+    bad = mf.native_eigen_value()
+    evals += 1
+    distinct.add(("eigen-value-and-repeatability",))
+    if bad:
+        viol.append(dict(ob="bounded/eigen-root-value-and-repeatability", func="_matrix_inverse_root_eigen", input=dict(configs=["default", "enhance_stability"], calls_per_size=2), text=bad, detail=bad, replay=dict(kind="eigen")))
     return dict(evaluations=evals, distinct_nontrivial=len(distinct),
                 rule="sizes x spectra (random, graded, rank-deficient, repeated) x scales x roots p/q x {float32,float64} x {eigen, eigen+stability, coupled Newton, coupled higher-order} against a float64 spectral oracle; threshold 200*n*u*cond + solver tolerance; a raising higher-order solver is accepted; distinct = distinct parameter tuples",
                 samples=[dict(n=8, spectrum="graded", scale=1.0, root="4", dtype="f32", config="newton")], bound=f"sizes {sizes}", violations=viol)
